@@ -657,9 +657,7 @@ pub fn gen_atab(rng: &mut Rng, w: &mut CaseWriter) {
                 0 => Vec::new(),
                 1 => b"a\rb".to_vec(),
                 2 => b".".to_vec(),
-                // a field that is a lone CR: sam only -- for vcf the sync reader's rule changed in /repo fb10cd9
-                // and C12's model of it (imported read-only) still has the old one
-                3 if sam => b"\r".to_vec(),
+                3 => b"\r".to_vec(),
                 _ => {
                     let n = rng.range(1, 5) as usize;
                     (0..n).map(|_| *rng.pick(b"ACGT0123456789*=.;:")).collect()
